@@ -86,8 +86,19 @@ def _run_diamond(ctx, spec, rng):
 
     r = spec[1]
     d = 2 if r % 4 else 3
-    kind = ["unitary", "cptp", "mixed-unitary", "unitary-far", "equal"][r % 5]
-    if kind in ("unitary", "unitary-far"):
+    kind = ["unitary", "cptp", "mixed-unitary", "unitary-far", "equal", "measure-prepare", "cptp"][r % 7]
+    mp_want = None
+    if kind == "measure-prepare":
+        # both channels measure in the computational basis and prepare a pure state per outcome: the diamond distance is the largest trace distance
+        # between the states prepared for one outcome, max_i | sigma_i - tau_i |_1
+        s_ = [gen.unit(rng, d) for _ in range(d)]
+        t_ = [gen.unit(rng, d) if i_ % 2 == 0 or rng.random() < 0.5 else s_[i_].copy() for i_ in range(d)]
+        if r % 14 >= 7:  # reset-type: one of the channels prepares the same state for every outcome
+            t_ = [t_[0].copy() for _ in range(d)]
+        k1 = [np.outer(s_[i_], np.eye(d)[i_]) for i_ in range(d)]
+        k2 = [np.outer(t_[i_], np.eye(d)[i_]) for i_ in range(d)]
+        mp_want = max(2 * np.sqrt(max(0.0, 1 - abs(np.vdot(a_, b_)) ** 2)) for a_, b_ in zip(s_, t_))
+    elif kind in ("unitary", "unitary-far"):
         u = gen.haar(rng, d)
         v = near_unitary(rng, u, 0.5 if kind == "unitary" else 2.5)
         k1, k2 = [u], [v]
@@ -120,6 +131,8 @@ def _run_diamond(ctx, spec, rng):
     back = _solve(ctx, diamond_distance, j2.copy(), j1.copy())
     if back is not None:
         ctx.check("O1:diamond-symmetric", None, dev=abs(back - dd), tol=TOLA * 2, sig=sig, nt=True, mech="diamond_distance:not-symmetric", detail=dict(det, reverse=back))
+    if mp_want is not None:
+        ctx.check("O1:diamond-unitary-closed-form", None, dev=abs(dd - mp_want), tol=1e-4, sig=sig, nt=True, mech="diamond_distance:measure-and-prepare-closed-form", detail=dict(det, want=mp_want))
     if kind in ("unitary", "unitary-far"):
         delta = unitary_delta(k1[0], k2[0])
         want = 2 * np.sqrt(max(0.0, 1 - delta ** 2))
